@@ -29,6 +29,7 @@ const (
 	EvFuncVal              // a function literal that escapes (stored, returned, passed to an unknown callee)
 	EvDelete               // builtin delete(m, k)
 	EvEnd                  // path ended without return (panic / no-return call)
+	EvCut                  // path cut at the back edge of a loop without header condition
 )
 
 type GuardKind int
@@ -275,7 +276,14 @@ func (c *fnCtx) dfs(b *cfg.Block, cur []Event) {
 		limit = 2
 	}
 	if c.visited[b] >= limit {
-		return // loop body already taken once on this path
+		// loop body already taken on this path. For a loop without a header condition (for { ... })
+		// the iteration would otherwise vanish from every complete path: keep it as a cut path.
+		if fs, ok := b.Stmt.(*ast.ForStmt); ok && b.Kind == cfg.KindForBody && fs.Cond == nil && len(cur) > 0 {
+			evs := append([]Event(nil), cur...)
+			evs = append(evs, Event{Kind: EvCut, Fn: c.fn, Depth: c.depth, Pos: c.fn.Body.End()})
+			c.paths = append(c.paths, Path{Fn: c.fn, Events: evs, Exit: "cut"})
+		}
+		return
 	}
 	c.visited[b]++
 	defer func() { c.visited[b]-- }()
@@ -1091,6 +1099,8 @@ func (p *Program) EventStr(ev Event) string {
 		return "delete " + p.exprStr(ev.Call.Args[0])
 	case EvEnd:
 		return "end(no return)"
+	case EvCut:
+		return "cut(loop back edge)"
 	}
 	return "?"
 }
